@@ -5,12 +5,13 @@
 import JRV.Driver.Registry
 import JRV.Driver.Client
 import JRV.Driver.Payload
+import JRV.Driver.Headers
 
 namespace JRV.Driver
 
 def components : List (String × (List String → String)) := [
   ("echo", echo), ("norm", norm), ("truthy", truthyC), ("pyeq", pyeqC), ("cmpint", cmpIntC)
-] ++ clientComponents ++ payloadComponents
+] ++ clientComponents ++ payloadComponents ++ headersComponents
 
 def handle (line : String) : String :=
   match JRV.Codec.tokens line with
